@@ -665,6 +665,9 @@ func execScenario(c *runCtx, sc *scenario, eo *execOpts) ([]string, error) {
 				cnt := new(int32)
 				shutCounts[i] = cnt
 				var sd decor.Decorator = &shutListener{WC: (&decor.WC{}).Init(), n: cnt}
+				if i%2 == 1 { // a listener that is a moving-average decorator as well
+					sd = &shutEwmaListener{shutListener{WC: (&decor.WC{}).Init(), n: cnt}}
+				}
 				for j := 0; j < bs.shut; j++ {
 					sd = wrapOne((i+j)%5, sd)
 				}
@@ -895,6 +898,10 @@ type shutListener struct {
 
 func (d *shutListener) Decor(decor.Statistics) (string, int) { return d.Format("") }
 func (d *shutListener) OnShutdown()                          { atomic.AddInt32(d.n, 1) }
+
+type shutEwmaListener struct{ shutListener }
+
+func (d *shutEwmaListener) EwmaUpdate(int64, time.Duration) {}
 
 // libraryGoroutines counts goroutines that have a frame of the library on their stack
 func libraryGoroutines() (int, string) {
